@@ -1,5 +1,6 @@
 import ScyllaVerif.Model.Util
 import ScyllaVerif.Model.Pager
+import ScyllaVerif.Model.PagerExec
 /-! Line-protocol driver for C07.
 
 Case: `pg|sess|sessdg <skip 0|1> <eager|slow|drop<k>|pdrop<k>> <page> <page> ...` (`pg`: single-connection
@@ -64,6 +65,41 @@ def buildSessFaults : Bool → List (Nat × Option PState × List Char) → List
   | _, [] => []
   | first, p :: rest => sessAttempts first false false p.2.2 ++ buildSessFaults false rest
 
+/-- Pager kinds of the case line. -/
+inductive Kind where
+  | conn | sess | dg | cluster (n : Nat) (idem : Bool)
+  deriving DecidableEq
+
+/-- `pg` / `pgk`: single-connection pager; `sess`: session pager, prepared statement; `squery`: session
+pager, unprepared statement (QUERY frames); `sessdg`: downgrading policy; `clu<n>i` / `clu<n>n`: session
+pager on an `n`-node cluster, idempotent / not idempotent statement. -/
+/- `ctl`: the control connection's own use of the single-connection pager (the paged `system.peers`
+query of the metadata fetch, `ControlConnection::query_iter` -> `Connection::execute_iter`). -/
+def kindOf (k : String) : Option Kind :=
+  if k == "pg" || k == "pgk" || k == "ctl" then some .conn
+  else if k == "sess" || k == "squery" then some .sess
+  else if k == "sessdg" then some .dg
+  else if k.startsWith "clu" && k.length == 5 then
+    match (k.drop 3).toString.toList with
+    | [d, f] =>
+      if d.isDigit && d != '0' && (f == 'i' || f == 'n') then some (.cluster (d.toNat - 48) (f == 'i')) else none
+    | _ => none
+  else none
+
+/-- Which fault letters a kind knows, and where: `X` (constructor cancelled) only on the first page,
+`k`/`K` (SetKeyspace first response) only on the first page of a session pager, no UNPREPARED for QUERY
+frames, the cluster family only what `PagerExec.outcomeOf` maps (plus `d`). -/
+def lettersOk (kind : String) (ps : List (Nat × Option PState × List Char)) : Bool :=
+  let fs := ps.map fun p => p.2.2
+  let later := (fs.drop 1).flatten
+  let all := fs.flatten
+  !later.contains 'X' && !later.contains 'k' && !later.contains 'K' &&
+  (if kind == "pg" || kind == "pgk" then !all.contains 'k' && !all.contains 'K' else true) &&
+  (if kind == "squery" then !all.contains 'u' else true) &&
+  (if kind.startsWith "clu" then all.all (fun c => c == 'd' || (ScyllaVerif.PagerExec.outcomeOf c).isSome) else true) &&
+  (if kind == "sessdg" then !all.contains 'X' else true) &&
+  (if kind == "ctl" then all.all (fun c => c == 'u' || c == 'd') else true)
+
 def showLog (s : St) : String :=
   if s.log.isEmpty then "-" else ",".intercalate (s.log.map fun e => showState e.2)
 
@@ -110,7 +146,7 @@ def implRows (impl : String) : Option Nat :=
 def runCore (case impl : String) : String :=
   match words case with
   | kind :: skip :: cons :: pageWords =>
-    if kind != "pg" && kind != "sess" && kind != "sessdg" then "bad-case" else
+    if kindOf kind == none then "bad-case" else
     if skip != "0" && skip != "1" && skip != "2" && skip != "3" then "bad-case" else
     let ext := skip == "2" || skip == "3"
     if !ext && pageWords.any pageChanges then "bad-case" else
@@ -120,9 +156,19 @@ def runCore (case impl : String) : String :=
       if ps.isEmpty then "bad-case" else
       let pages := buildPages 0 ps
       if kind == "sessdg" && !(ps.all fun p => dgSupported p.2.2) then "bad-case" else
-      let s0 := init pages (if kind == "sess" then buildSessFaults true ps
-                            else if kind == "sessdg" then (ps.map fun p => dgAttempts false p.2.2).flatten
-                            else buildFaults ps)
+      if kind == "pgk" && ext then "bad-case" else
+      if kind == "ctl" && (ext || cons != "eager") then "bad-case" else
+      if !lettersOk kind ps then "bad-case" else
+      if kind == "pgk" then
+        -- the bound values lack the partition-key value: PartitionKeyError before the first fetch
+        let s := initFailed pages [] "PartitionKey"
+        showSt s (showLog s)
+      else
+      let s0 := init pages (match kindOf kind with
+        | some (.cluster n idem) => ScyllaVerif.PagerExec.clusterAttempts n idem (ps.map fun p => p.2.2)
+        | some .sess => buildSessFaults true ps
+        | some .dg => (ps.map fun p => dgAttempts false p.2.2).flatten
+        | _ => buildFaults ps)
       let fuel := 4 * measure s0 + 16
       if cons == "eager" || cons == "slow" then
         let s := runEager fuel s0
